@@ -194,6 +194,9 @@ def run(tier: str, seed: int, scale: int) -> Outcome:
         A = int(rng.integers(1, 5))
         s, i = hist.random_histories(rng, T, A, int(rng.integers(2, 6)), inner=bool(k % 3))
         mrs = sorted({0, int(rng.integers(1, 4)), int(rng.integers(4, 12))})
+        if k % 4 == 0:
+            # "never accept a visit that only reaches the outer shell": residences near the largest 64-bit integer
+            mrs += [2**62, 2**63 - 1000, 2**63 - 1]
         check_system(out, s, i, 'random', mrs=mrs)
     n_pub = (10 if tier == 'quick' else 150) * scale
     for k in range(n_pub):
